@@ -4,7 +4,10 @@
 //! elements that start with any number of namespace and attribute nodes.
 //!
 //! Correspondence: every request goes to the model too (`forest …` requests of suite_forest's
-//! session, `fmap …` requests of Driver/Fmap.lean); both views are read after every step.
+//! session, `fmap …` requests of Driver/Fmap.lean); both views are read after every step.  Every
+//! `fmap` call is answered with the value the real call RETURNS (old value of insert / remove,
+//! the value behind a returned `&mut V`, …; the node of append_*_node in the `forest` requests),
+//! which the model answers from `MapCall.run` and the reference map from its own state.
 //! Oracle (implementation only): an independent insertion-ordered reference map (a Vec of
 //! entries, `RMap`) is fed the same updates; after every step every accessor of the read-only
 //! and of the mutable view must agree with it (content, order, and which node carries which
@@ -173,26 +176,37 @@ impl Fm {
     // ------------------------------------------------------------------------------------
     // map-style updates through the `forest` requests
 
-    /// `insert` (or `set_attribute` / `set_namespace` when `via_xot`).
+    /// `insert` (or `set_attribute` / `set_namespace` when `via_xot`).  The map call itself is the
+    /// `fmap insert` request, answered with the `Option<V>` it returns; the Xot methods return `()`.
     pub fn step_insert(&mut self, sink: &mut Sink, ei: usize, attr: bool, key: usize, val: Pay, via_xot: bool) {
+        if !via_xot {
+            let arg = val.clone();
+            self.step_entry(sink, ei, attr, "insert", key, val, arg);
+            return;
+        }
         let e = self.elems[ei].label;
         let req = format!("map_insert {} {} {} {}", kind(attr), e, key, val.wire());
         let fresh = self.fresh();
-        let resp = if via_xot { self.exec_as_xot_call(sink, &req) } else { self.s.exec(sink, &req) };
+        let resp = self.exec_as_xot_call(sink, &req);
         let (node, existed) = self.elems[ei].views[vi(attr)].insert(key, val, fresh);
         if !existed {
             self.entries.insert(node, Loc::In { elem: ei, attr });
         }
-        let ctor = if !via_xot { "insert" } else if attr { "setAttribute" } else { "setNamespace" };
+        let ctor = if attr { "setAttribute" } else { "setNamespace" };
         sink.stat(&format!("mapop2.{}.{}", ctor, if existed { "existing-key" } else { "new-key" }));
         self.expect(sink, "insert", &req, &resp, "ok");
     }
 
     pub fn step_remove(&mut self, sink: &mut Sink, ei: usize, attr: bool, key: usize, via_xot: bool) {
+        if !via_xot {
+            let val = if attr { Pay::S(String::new()) } else { Pay::N(0) };
+            self.step_entry(sink, ei, attr, "remove", key, val.clone(), val);
+            return;
+        }
         let e = self.elems[ei].label;
         let req = format!("map_remove {} {} {}", kind(attr), e, key);
-        let resp = if via_xot { self.exec_as_xot_call(sink, &req) } else { self.s.exec(sink, &req) };
-        let ctor = if !via_xot { "remove" } else if attr { "removeAttribute" } else { "removeNamespace" };
+        let resp = self.exec_as_xot_call(sink, &req);
+        let ctor = if attr { "removeAttribute" } else { "removeNamespace" };
         let mut present = false;
         if let Some(en) = self.elems[ei].views[vi(attr)].remove(key) {
             self.entries.remove(&en.node);
@@ -365,71 +379,87 @@ impl Fm {
         }
     }
 
+    /// One call on the real mutable view (`insert`, `remove`, `get_mut`, every call of the entry
+    /// API).  The response is `ok` followed by the value the call RETURNS: the `Option<V>` of
+    /// `insert` / `remove` / `OccupiedEntry::insert` / `remove` (`-` = `None`), the value behind the
+    /// `&mut V` of `or_insert` / `or_default` / `or_insert_with` / `VacantEntry::insert`, whether
+    /// `and_modify` hands back an occupied entry, the value `get_mut` / `into_mut` / `get_mut` of
+    /// the occupied entry pointed to before it was overwritten.  The model answers the same line
+    /// (`MapCall.run`), and the reference map says what it must be.
     pub fn step_entry(&mut self, sink: &mut Sink, ei: usize, attr: bool, op: &str, key: usize, val: Pay, arg: Pay) {
         let e = self.elems[ei].label;
         let a = self.node(e);
         let req = match op {
-            "entry_or_insert" | "entry_insert" | "occupied_insert" | "vacant_insert" | "get_mut_set" | "entry_or_insert_with" | "occupied_into_mut" => format!("{} {} {} {} {}", op, kind(attr), e, key, val.wire()),
+            "insert" | "entry_or_insert" | "entry_insert" | "occupied_insert" | "vacant_insert" | "get_mut_set" | "entry_or_insert_with" | "occupied_into_mut" | "occupied_get_mut" => format!("{} {} {} {} {}", op, kind(attr), e, key, val.wire()),
             "entry_or_default" => format!("{} {} {}", op, e, key),
             "entry_and_modify" => format!("{} {} {} {} {}", op, kind(attr), e, key, arg.wire()),
             "entry_and_modify_or_insert" => format!("{} {} {} {} {} {}", op, kind(attr), e, key, arg.wire(), val.wire()),
-            "entry_remove" => format!("{} {} {} {}", op, kind(attr), e, key),
+            "remove" | "entry_remove" => format!("{} {} {} {}", op, kind(attr), e, key),
             _ => unreachable!(),
         };
         let fresh = self.fresh();
         let xot = &mut self.s.xot;
         let vocab = &self.s.vocab;
-        let mut found: Option<bool> = None;
-        // `or_insert_with`: did the closure run, and the value seen through the returned `&mut V`
-        let mut with: Option<(bool, Pay)> = None;
-        let r: Option<()> = if attr {
+        fn opt<T>(o: Option<T>, w: impl Fn(&T) -> String) -> String {
+            match o {
+                Some(x) => w(&x),
+                None => "-".to_string(),
+            }
+        }
+        // the returned value on the wire ("" = `()`)
+        let r: Option<String> = if attr {
             let name = vocab.name(key);
             let v = match &val { Pay::S(s) => s.clone(), _ => String::new() };
             let sfx = match &arg { Pay::S(s) => s.clone(), _ => String::new() };
+            let w = |x: &String| enc(x);
             match op {
-                "entry_or_insert" => guarded(|| { let mut m = xot.attributes_mut(a); let _ = m.entry(name).or_insert(v); }),
-                "entry_or_default" => guarded(|| { let mut m = xot.attributes_mut(a); let _ = m.entry(name).or_default(); }),
-                "entry_and_modify" => guarded(|| { let mut m = xot.attributes_mut(a); let _ = m.entry(name).and_modify(|x| x.push_str(&sfx)); }),
-                "entry_and_modify_or_insert" => guarded(|| { let mut m = xot.attributes_mut(a); let _ = m.entry(name).and_modify(|x| x.push_str(&sfx)).or_insert(v); }),
-                "entry_insert" => guarded(|| { let mut m = xot.attributes_mut(a); match m.entry(name) { Entry::Occupied(mut o) => { o.insert(v); } Entry::Vacant(va) => { va.insert(v); } } }),
-                "occupied_insert" => guarded(|| { let mut m = xot.attributes_mut(a); if let Entry::Occupied(mut o) = m.entry(name) { o.insert(v); } }),
-                "vacant_insert" => guarded(|| { let mut m = xot.attributes_mut(a); if let Entry::Vacant(va) = m.entry(name) { va.insert(v); } }),
-                "entry_remove" => guarded(|| { let mut m = xot.attributes_mut(a); if let Entry::Occupied(o) = m.entry(name) { o.remove(); } }),
-                "entry_or_insert_with" => { let r = guarded(|| { let mut m = xot.attributes_mut(a); let mut called = false; let seen = m.entry(name).or_insert_with(|| { called = true; v }).clone(); (called, Pay::S(seen)) }); with = r.clone(); r.map(|_| ()) }
-                "occupied_into_mut" => { let r = guarded(|| { let mut m = xot.attributes_mut(a); match m.entry(name) { Entry::Occupied(o) => { *o.into_mut() = v; true } Entry::Vacant(_) => false } }); found = r; r.map(|_| ()) }
-                _ => { let r = guarded(|| { let mut m = xot.attributes_mut(a); match m.get_mut(name) { Some(x) => { *x = v; true } None => false } }); found = r; r.map(|_| ()) }
+                "insert" => guarded(|| { let mut m = xot.attributes_mut(a); let r = m.insert(name, v); opt(r, w) }),
+                "remove" => guarded(|| { let mut m = xot.attributes_mut(a); let r = m.remove(name); opt(r, w) }),
+                "entry_or_insert" => guarded(|| { let mut m = xot.attributes_mut(a); let r = m.entry(name).or_insert(v).clone(); w(&r) }),
+                "entry_or_default" => guarded(|| { let mut m = xot.attributes_mut(a); let r = m.entry(name).or_default().clone(); w(&r) }),
+                "entry_and_modify" => guarded(|| { let mut m = xot.attributes_mut(a); let r = matches!(m.entry(name).and_modify(|x| x.push_str(&sfx)), Entry::Occupied(_)); (if r { "1" } else { "0" }).to_string() }),
+                "entry_and_modify_or_insert" => guarded(|| { let mut m = xot.attributes_mut(a); let r = m.entry(name).and_modify(|x| x.push_str(&sfx)).or_insert(v).clone(); w(&r) }),
+                "entry_insert" => guarded(|| { let mut m = xot.attributes_mut(a); let r = match m.entry(name) { Entry::Occupied(mut o) => Some(o.insert(v)), Entry::Vacant(va) => { va.insert(v); None } }; opt(r, w) }),
+                "occupied_insert" => guarded(|| { let mut m = xot.attributes_mut(a); let r = if let Entry::Occupied(mut o) = m.entry(name) { Some(o.insert(v)) } else { None }; opt(r, w) }),
+                "vacant_insert" => guarded(|| { let mut m = xot.attributes_mut(a); let r = if let Entry::Vacant(va) = m.entry(name) { Some(va.insert(v).clone()) } else { None }; opt(r, w) }),
+                "entry_remove" => guarded(|| { let mut m = xot.attributes_mut(a); let r = if let Entry::Occupied(o) = m.entry(name) { Some(o.remove()) } else { None }; opt(r, w) }),
+                "entry_or_insert_with" => guarded(|| { let mut m = xot.attributes_mut(a); let mut called = false; let seen = m.entry(name).or_insert_with(|| { called = true; v }).clone(); format!("{} {}", if called { 1 } else { 0 }, w(&seen)) }),
+                "occupied_into_mut" => guarded(|| { let mut m = xot.attributes_mut(a); let r = match m.entry(name) { Entry::Occupied(o) => Some(std::mem::replace(o.into_mut(), v)), Entry::Vacant(_) => None }; opt(r, w) }),
+                "occupied_get_mut" => guarded(|| { let mut m = xot.attributes_mut(a); let r = match m.entry(name) { Entry::Occupied(mut o) => Some(std::mem::replace(o.get_mut(), v)), Entry::Vacant(_) => None }; opt(r, w) }),
+                _ => guarded(|| { let mut m = xot.attributes_mut(a); let r = m.get_mut(name).map(|x| std::mem::replace(x, v)); opt(r, w) }),
             }
         } else {
             let p = vocab.prefix(key);
             let v = match &val { Pay::N(n) => vocab.ns(*n), _ => vocab.ns(0) };
             let nv = match &arg { Pay::N(n) => vocab.ns(*n), _ => vocab.ns(0) };
+            let w = |x: &xot::NamespaceId| ns_num(*x).to_string();
             match op {
-                "entry_or_insert" => guarded(|| { let mut m = xot.namespaces_mut(a); let _ = m.entry(p).or_insert(v); }),
-                "entry_and_modify" => guarded(|| { let mut m = xot.namespaces_mut(a); let _ = m.entry(p).and_modify(|x| *x = nv); }),
-                "entry_and_modify_or_insert" => guarded(|| { let mut m = xot.namespaces_mut(a); let _ = m.entry(p).and_modify(|x| *x = nv).or_insert(v); }),
-                "entry_insert" => guarded(|| { let mut m = xot.namespaces_mut(a); match m.entry(p) { Entry::Occupied(mut o) => { o.insert(v); } Entry::Vacant(va) => { va.insert(v); } } }),
-                "occupied_insert" => guarded(|| { let mut m = xot.namespaces_mut(a); if let Entry::Occupied(mut o) = m.entry(p) { o.insert(v); } }),
-                "vacant_insert" => guarded(|| { let mut m = xot.namespaces_mut(a); if let Entry::Vacant(va) = m.entry(p) { va.insert(v); } }),
-                "entry_remove" => guarded(|| { let mut m = xot.namespaces_mut(a); if let Entry::Occupied(o) = m.entry(p) { o.remove(); } }),
-                "entry_or_insert_with" => { let r = guarded(|| { let mut m = xot.namespaces_mut(a); let mut called = false; let seen = *m.entry(p).or_insert_with(|| { called = true; v }); (called, Pay::N(crate::tree::ns_num(seen))) }); with = r.clone(); r.map(|_| ()) }
-                "occupied_into_mut" => { let r = guarded(|| { let mut m = xot.namespaces_mut(a); match m.entry(p) { Entry::Occupied(o) => { *o.into_mut() = v; true } Entry::Vacant(_) => false } }); found = r; r.map(|_| ()) }
-                _ => { let r = guarded(|| { let mut m = xot.namespaces_mut(a); match m.get_mut(p) { Some(x) => { *x = v; true } None => false } }); found = r; r.map(|_| ()) }
+                "insert" => guarded(|| { let mut m = xot.namespaces_mut(a); let r = m.insert(p, v); opt(r, w) }),
+                "remove" => guarded(|| { let mut m = xot.namespaces_mut(a); let r = m.remove(p); opt(r, w) }),
+                "entry_or_insert" => guarded(|| { let mut m = xot.namespaces_mut(a); let r = *m.entry(p).or_insert(v); w(&r) }),
+                "entry_and_modify" => guarded(|| { let mut m = xot.namespaces_mut(a); let r = matches!(m.entry(p).and_modify(|x| *x = nv), Entry::Occupied(_)); (if r { "1" } else { "0" }).to_string() }),
+                "entry_and_modify_or_insert" => guarded(|| { let mut m = xot.namespaces_mut(a); let r = *m.entry(p).and_modify(|x| *x = nv).or_insert(v); w(&r) }),
+                "entry_insert" => guarded(|| { let mut m = xot.namespaces_mut(a); let r = match m.entry(p) { Entry::Occupied(mut o) => Some(o.insert(v)), Entry::Vacant(va) => { va.insert(v); None } }; opt(r, w) }),
+                "occupied_insert" => guarded(|| { let mut m = xot.namespaces_mut(a); let r = if let Entry::Occupied(mut o) = m.entry(p) { Some(o.insert(v)) } else { None }; opt(r, w) }),
+                "vacant_insert" => guarded(|| { let mut m = xot.namespaces_mut(a); let r = if let Entry::Vacant(va) = m.entry(p) { Some(*va.insert(v)) } else { None }; opt(r, w) }),
+                "entry_remove" => guarded(|| { let mut m = xot.namespaces_mut(a); let r = if let Entry::Occupied(o) = m.entry(p) { Some(o.remove()) } else { None }; opt(r, w) }),
+                "entry_or_insert_with" => guarded(|| { let mut m = xot.namespaces_mut(a); let mut called = false; let seen = *m.entry(p).or_insert_with(|| { called = true; v }); format!("{} {}", if called { 1 } else { 0 }, w(&seen)) }),
+                "occupied_into_mut" => guarded(|| { let mut m = xot.namespaces_mut(a); let r = match m.entry(p) { Entry::Occupied(o) => Some(std::mem::replace(o.into_mut(), v)), Entry::Vacant(_) => None }; opt(r, w) }),
+                "occupied_get_mut" => guarded(|| { let mut m = xot.namespaces_mut(a); let r = match m.entry(p) { Entry::Occupied(mut o) => Some(std::mem::replace(o.get_mut(), v)), Entry::Vacant(_) => None }; opt(r, w) }),
+                _ => guarded(|| { let mut m = xot.namespaces_mut(a); let r = m.get_mut(p).map(|x| std::mem::replace(x, v)); opt(r, w) }),
             }
         };
-        let resp = match (r, op, found) {
-            (None, _, _) => "panic".to_string(),
-            (Some(()), "get_mut_set", Some(b)) | (Some(()), "occupied_into_mut", Some(b)) => format!("ok {}", if b { 1 } else { 0 }),
-            (Some(()), "entry_or_insert_with", _) => match &with {
-                Some((called, seen)) => format!("ok {} {}", if *called { 1 } else { 0 }, seen.wire()),
-                None => "panic".to_string(),
-            },
-            _ => "ok".to_string(),
+        let resp = match r {
+            None => "panic".to_string(),
+            Some(s) if s.is_empty() => "ok".to_string(),
+            Some(s) => format!("ok {}", s),
         };
         let resp = self.emit_fmap(sink, &req, resp);
         // the reference
         let view = &mut self.elems[ei].views[vi(attr)];
-        let mut want = "ok".to_string();
         let ctor = match op {
+            "insert" => "insert",
+            "remove" => "remove",
             "entry_or_insert" => "entryOrInsert",
             "entry_or_default" => "entryOrDefault",
             "entry_and_modify" => "entryAndModify",
@@ -439,37 +469,53 @@ impl Fm {
             "vacant_insert" => "vacantInsert",
             "entry_remove" => "entryRemove",
             "entry_or_insert_with" => "entryOrInsertWith",
-            "occupied_into_mut" => "occupiedIntoMut",
+            "occupied_into_mut" => "occupiedIntoMutSet",
+            "occupied_get_mut" => "occupiedGetMutSet",
             _ => "getMutSet",
         };
-        // the two calls below are no MapOp2 constructors of their own: C11_entry_or_insert_with /
-        // C11_entry_into_mut reduce them to entryOrInsert / getMutSet
-        let family = if matches!(op, "entry_or_insert_with" | "occupied_into_mut") { "entryapi" } else { "mapop2" };
-        sink.stat(&format!("{}.{}.{}", family, ctor, if view.pos(key).is_some() { "occupied" } else { "vacant" }));
+        // the three calls below are no MapOp2 constructors: they are constructors of MapCall
+        let family = if matches!(op, "entry_or_insert_with" | "occupied_into_mut" | "occupied_get_mut") { "mapcall" } else { "mapop2" };
+        let was = view.get(key).map(|x| x.val.wire());
+        let occupied = was.is_some();
         match op {
-            "entry_or_insert" | "entry_or_default" => {
-                let d = if op == "entry_or_default" { Pay::S(String::new()) } else { val };
-                if view.pos(key).is_none() {
-                    view.insert(key, d, fresh);
-                    self.entries.insert(fresh, Loc::In { elem: ei, attr });
+            "insert" => sink.stat(&format!("mapop2.insert.{}", if occupied { "existing-key" } else { "new-key" })),
+            "remove" => sink.stat(&format!("mapop2.remove.{}", if occupied { "present" } else { "absent" })),
+            _ => sink.stat(&format!("{}.{}.{}", family, ctor, if occupied { "occupied" } else { "vacant" })),
+        }
+        let old_or_none = was.clone().unwrap_or_else(|| "-".to_string());
+        // what the reference map returns
+        let want: String;
+        match op {
+            "insert" | "entry_insert" => {
+                let (n, existed) = view.insert(key, val, fresh);
+                if !existed {
+                    self.entries.insert(n, Loc::In { elem: ei, attr });
                 }
+                want = format!("ok {}", old_or_none);
             }
-            "entry_or_insert_with" => {
-                // the closure runs exactly for a vacant entry; the reference handed back is the
-                // stored value (the old one when occupied, the closure's when vacant)
-                let vacant = view.pos(key).is_none();
-                if vacant {
-                    view.insert(key, val, fresh);
+            "remove" | "entry_remove" => {
+                if let Some(en) = view.remove(key) {
+                    self.entries.remove(&en.node);
+                }
+                want = format!("ok {}", old_or_none);
+            }
+            "entry_or_insert" | "entry_or_default" | "entry_or_insert_with" => {
+                // the closure of or_insert_with runs exactly for a vacant entry; the reference handed
+                // back is to the stored value (the old one when occupied, the default when vacant)
+                let d = if op == "entry_or_default" { Pay::S(String::new()) } else { val };
+                if !occupied {
+                    view.insert(key, d, fresh);
                     self.entries.insert(fresh, Loc::In { elem: ei, attr });
                 }
                 let view = &self.elems[ei].views[vi(attr)];
                 let stored = view.get(key).map(|x| x.val.wire()).unwrap_or_else(|| "?".to_string());
-                want = format!("ok {} {}", if vacant { 1 } else { 0 }, stored);
+                want = if op == "entry_or_insert_with" { format!("ok {} {}", if occupied { 0 } else { 1 }, stored) } else { format!("ok {}", stored) };
             }
             "entry_and_modify" => {
                 if let Some(i) = view.pos(key) {
                     view.0[i].val = Self::modified(attr, &view.0[i].val, &arg);
                 }
+                want = format!("ok {}", if occupied { 1 } else { 0 });
             }
             "entry_and_modify_or_insert" => {
                 if let Some(i) = view.pos(key) {
@@ -478,35 +524,30 @@ impl Fm {
                     view.insert(key, val, fresh);
                     self.entries.insert(fresh, Loc::In { elem: ei, attr });
                 }
-            }
-            "entry_insert" => {
-                let (n, existed) = view.insert(key, val, fresh);
-                if !existed {
-                    self.entries.insert(n, Loc::In { elem: ei, attr });
-                }
+                let view = &self.elems[ei].views[vi(attr)];
+                want = format!("ok {}", view.get(key).map(|x| x.val.wire()).unwrap_or_else(|| "?".to_string()));
             }
             "occupied_insert" => {
                 if let Some(i) = view.pos(key) {
                     view.0[i].val = val;
                 }
+                want = format!("ok {}", old_or_none);
             }
             "vacant_insert" => {
-                if view.pos(key).is_none() {
+                if !occupied {
+                    want = format!("ok {}", val.wire());
                     view.insert(key, val, fresh);
                     self.entries.insert(fresh, Loc::In { elem: ei, attr });
-                }
-            }
-            "entry_remove" => {
-                if let Some(en) = view.remove(key) {
-                    self.entries.remove(&en.node);
+                } else {
+                    want = "ok -".to_string();
                 }
             }
             _ => {
-                let hit = view.pos(key);
-                if let Some(i) = hit {
+                // get_mut / OccupiedEntry::into_mut / get_mut, written through
+                if let Some(i) = view.pos(key) {
                     view.0[i].val = val;
                 }
-                want = format!("ok {}", if hit.is_some() { 1 } else { 0 });
+                want = format!("ok {}", old_or_none);
             }
         }
         self.expect(sink, op, &req, &resp, &want);
@@ -653,29 +694,34 @@ impl Fm {
         }
     }
 
-    /// `fmap get`: `get` + `get_node` of the read-only view, model-compared.
+    /// `fmap get`: `get_node`, `get` and `contains_key` of the read-only view (the calls
+    /// `MapCall.getNode` / `get` / `containsKey` return), model-compared and judged against the
+    /// reference map.
     pub fn read_get(&mut self, sink: &mut Sink, ei: usize, attr: bool, key: usize) {
         let e = self.elems[ei].label;
         let a = self.node(e);
+        let lab = |s: &Session, x: Option<Node>| match x {
+            Some(x) => s.label.get(&x).map(|l| l.to_string()).unwrap_or("?".into()),
+            None => "-".to_string(),
+        };
         let resp = if attr {
             let m = self.s.xot.attributes(a);
             let n = self.s.vocab.name(key);
-            match (m.get_node(n), m.get(n)) {
-                (Some(x), Some(v)) => format!("{} {}", self.s.label.get(&x).map(|l| l.to_string()).unwrap_or("?".into()), enc(v)),
-                (None, None) => "none".into(),
-                _ => "inconsistent".into(),
-            }
+            format!("{} {} {}", lab(&self.s, m.get_node(n)), m.get(n).map(|v| enc(v)).unwrap_or("-".into()), if m.contains_key(n) { 1 } else { 0 })
         } else {
             let m = self.s.xot.namespaces(a);
             let n = self.s.vocab.prefix(key);
-            match (m.get_node(n), m.get(n)) {
-                (Some(x), Some(v)) => format!("{} {}", self.s.label.get(&x).map(|l| l.to_string()).unwrap_or("?".into()), ns_num(*v)),
-                (None, None) => "none".into(),
-                _ => "inconsistent".into(),
-            }
+            format!("{} {} {}", lab(&self.s, m.get_node(n)), m.get(n).map(|v| ns_num(*v).to_string()).unwrap_or("-".into()), if m.contains_key(n) { 1 } else { 0 })
         };
         let req = format!("get {} {} {}", kind(attr), e, key);
-        self.emit_fmap(sink, &req, resp);
+        let resp = self.emit_fmap(sink, &req, resp);
+        let view = &self.elems[ei].views[vi(attr)];
+        let want = match view.get(key) {
+            Some(x) => format!("{} {} 1", x.node, x.val.wire()),
+            None => "- - 0".to_string(),
+        };
+        sink.stat(&format!("mapcall.get.{}", if view.get(key).is_some() { "present" } else { "absent" }));
+        self.expect(sink, "get", &req, &resp, &want);
     }
 
     /// `fmap entry_peek`: the read accessors of the entry API — `Entry::key`, then
@@ -887,7 +933,7 @@ fn any_val(rng: &mut Rng, attr: bool) -> Pay {
 const OPS: &[(&str, usize)] = &[
     ("insert", 10), ("set", 4), ("remove", 6), ("unset", 3), ("clear", 1), ("new_append", 8), ("new_only", 3), ("append_known", 8),
     ("detach", 4), ("remove_node", 3), ("entry_or_insert", 4), ("entry_or_default", 2), ("entry_and_modify", 4),
-    ("entry_and_modify_or_insert", 4), ("entry_insert", 3), ("occupied_insert", 3), ("vacant_insert", 3), ("entry_remove", 3), ("get_mut_set", 4), ("entry_or_insert_with", 4), ("occupied_into_mut", 4), ("move", 6), ("noise", 3), ("non_element", 1),
+    ("entry_and_modify_or_insert", 4), ("entry_insert", 3), ("occupied_insert", 3), ("vacant_insert", 3), ("entry_remove", 3), ("get_mut_set", 4), ("entry_or_insert_with", 4), ("occupied_into_mut", 4), ("occupied_get_mut", 3), ("move", 6), ("noise", 3), ("non_element", 1),
 ];
 
 fn pick_op(rng: &mut Rng) -> &'static str {
@@ -1054,6 +1100,7 @@ enum XOp {
     VacInsert(usize),
     OrInsertWith(usize),
     IntoMut(usize),
+    OccGetMut(usize),
 }
 
 fn alphabet(with_entry: bool) -> Vec<XOp> {
@@ -1073,6 +1120,7 @@ fn alphabet(with_entry: bool) -> Vec<XOp> {
             v.push(XOp::VacInsert(k));
             v.push(XOp::OrInsertWith(k));
             v.push(XOp::IntoMut(k));
+            v.push(XOp::OccGetMut(k));
         }
     }
     v
@@ -1111,6 +1159,7 @@ fn exhaustive(sink: &mut Sink, attr: bool, depth: usize, with_entry: bool) {
                 XOp::VacInsert(k) => { fm.step_entry(sink, ei, attr, "vacant_insert", keys[k], val.clone(), val); "vacant_insert" }
                 XOp::OrInsertWith(k) => { fm.step_entry(sink, ei, attr, "entry_or_insert_with", keys[k], val.clone(), val); "entry_or_insert_with" }
                 XOp::IntoMut(k) => { fm.step_entry(sink, ei, attr, "occupied_into_mut", keys[k], val.clone(), val); "occupied_into_mut" }
+                XOp::OccGetMut(k) => { fm.step_entry(sink, ei, attr, "occupied_get_mut", keys[k], val.clone(), val); "occupied_get_mut" }
             };
             if fm.dead {
                 break;
@@ -1231,7 +1280,7 @@ pub fn run(seed: u64, count: usize, tier: &str, sink: &mut Sink) {
         "thorough" | "search" => {
             // every history of 5 steps over 3 keys (insert / remove / node-style insert of each
             // key, clear: 10 operations per step) on the attribute view, 4 steps on the namespace
-            // view; 3 steps with the entry API added (31 operations per step), both views
+            // view; 3 steps with the entry API added (34 operations per step), both views
             exhaustive(sink, true, 5, false);
             exhaustive(sink, false, 4, false);
             exhaustive(sink, true, 3, true);
